@@ -21,7 +21,7 @@ pub struct Read {
     pub rev: bool,
     /// (position selector, 0..3 substitute base / 4 = N)
     pub errs: Vec<(u16, u8)>,
-    /// cyclic quality selectors 0..6 -> {Q-1, Q, Q, Q+1, Q+5, 40}
+    /// cyclic quality selectors 0..7 -> {Q-1, Q, Q, Q+1, Q+5, 40, 93}
     pub quals: Vec<u8>,
     pub copies: u8,
 }
@@ -47,7 +47,7 @@ fn read_strategy(max_copies: u8) -> BoxedStrategy<Read> {
         0u8..31,
         any::<bool>(),
         proptest::collection::vec((any::<u16>(), 0u8..5), 0..2),
-        proptest::collection::vec(prop_oneof![1 => Just(0u8), 2 => Just(1u8), 2 => Just(2u8), 2 => Just(3u8), 2 => Just(4u8), 3 => Just(5u8)], 1..9),
+        proptest::collection::vec(prop_oneof![1 => Just(0u8), 2 => Just(1u8), 2 => Just(2u8), 2 => Just(3u8), 2 => Just(4u8), 3 => Just(5u8), 1 => Just(6u8)], 1..9),
         1u8..=max_copies,
     )
         .prop_map(|(start, extra, rev, errs, quals, copies)| Read { start, extra, rev, errs, quals, copies })
@@ -82,12 +82,14 @@ pub struct Mat {
 }
 
 fn qual_of(sel: u8, q: u8) -> u8 {
-    let v: i32 = match sel % 6 {
+    let v: i32 = match sel % 7 {
         0 => q as i32 - 1,
         1 | 2 => q as i32,
         3 => q as i32 + 1,
         4 => q as i32 + 5,
-        _ => 40,
+        5 => 40,
+        // the top of the Phred+33 range ('~', written by long-read basecallers and simulators)
+        _ => 93,
     };
     v.clamp(0, 93) as u8
 }
@@ -438,7 +440,7 @@ fn check_dense(c: &DenseCase, ctx: &Ctx) -> Outcome {
 
 const DENSE_RULE: &str = "generated: one sample of 12000-40000 distinct k-mers: a random genome tiled by reads of 100-150 bases so that every window lies in exactly one read, every read present min-count times (every seventh read once less), random orientation, shuffled over two FASTQ files; min-count 2-4, k in {15,21,31,33,41}; in-process build. Oracle as in the inproc stage (every k-mer that reaches the count is stored; extras within the 0.1% bound). Every case non-trivial.";
 
-const RULE: &str = "generated: genome of k+5..3k+40 bases (20% with a planted self-reverse-complement split k-mer), 2-23 reads of length k..k+30 from both strands with substitutions and N, a third of them partly lower case, each repeated 1..C+1 times so that counts straddle the threshold, per-base qualities from {Q-1,Q,Q,Q+1,Q+5,40}, reads split over two FASTQ files; min-count 1-6, min-qual 0-40, three quality rules, all k, both strand modes. Oracle (string model of counting): every (k-mer, middle base) whose full k-mer count (with its reverse complement, both files, passing windows only) reaches C is stored, nothing never observed at passing quality is stored, below-count extras <= max(1, 0.1% of distinct) per case and < 0.1% in aggregate; a sample where nothing reaches the count is refused. Non-trivial: a k-mer with count C or C-1 and a base with quality exactly Q and >=1 k-mer reaching the count.";
+const RULE: &str = "generated: genome of k+5..3k+40 bases (20% with a planted self-reverse-complement split k-mer), 2-23 reads of length k..k+30 from both strands with substitutions and N, a third of them partly lower case, each repeated 1..C+1 times so that counts straddle the threshold, per-base qualities from {Q-1,Q,Q,Q+1,Q+5,40,93}, reads split over two FASTQ files; min-count 1-6, min-qual 0-40, three quality rules, all k, both strand modes. Oracle (string model of counting): every (k-mer, middle base) whose full k-mer count (with its reverse complement, both files, passing windows only) reaches C is stored, nothing never observed at passing quality is stored, below-count extras <= max(1, 0.1% of distinct) per case and < 0.1% in aggregate; a sample where nothing reaches the count is refused. Non-trivial: a k-mer with count C or C-1 and a base with quality exactly Q and >=1 k-mer reaching the count.";
 
 fn show(c: &Case) -> serde_json::Value {
     let m = materialise(c);
